@@ -15,6 +15,11 @@ const (
 	evyWidth    = 100
 	evyHeight   = 100
 	scaleFactor = 10
+	// maxGridRounds bounds the loop of Gridn: grid lines are at least 0.1 SVG
+	// units apart (the gridn built-in rejects units below 0.01), so there are
+	// never more rounds than this. With the bound the loop ends whatever the
+	// unit is; it does not rely on floating-point accumulation.
+	maxGridRounds = evyWidth * scaleFactor * 10
 )
 
 var (
@@ -286,18 +291,23 @@ func (rt *GraphicsPlatform) Text(str string) {
 func (rt *GraphicsPlatform) Gridn(unit float64, color string) {
 	unit = rt.transformX(unit)
 	group := Group{Attr: Attr{Stroke: color}}
-	lineCnt := 0
 	thickWdith := 2.0
 	height := float64(evyHeight * scaleFactor)
 	width := float64(evyWidth * scaleFactor)
-	for i := float64(0); i <= 1000; i += unit {
+	for lineCnt := 0; lineCnt <= maxGridRounds; lineCnt++ {
+		// The position is computed from the integer round counter: adding
+		// unit to a running sum stalls once unit is below the resolution of
+		// the sum (i + unit == i) and the loop would never end.
+		i := float64(lineCnt) * unit
+		if !(i <= 1000) { // also ends the loop for NaN
+			break
+		}
 		hLine := &Line{X1: i, Y1: 0, X2: i, Y2: height}
 		vLine := &Line{X1: 0, Y1: i, X2: width, Y2: i}
 		if lineCnt%5 == 0 {
 			hLine.StrokeWidth = &thickWdith
 			vLine.StrokeWidth = &thickWdith
 		}
-		lineCnt++
 		group.Elements = append(group.Elements, hLine, vLine)
 	}
 	rt.elements = append(rt.elements, &group)
